@@ -273,6 +273,8 @@ class AxisChecker:
                 for sub in walk_local(node):
                     seen_exprs.add(id(sub))
                 self._walk_expr(node)
+            if isinstance(node, ast.If):
+                self._branch_axis(node)
             if isinstance(node, ast.Compare):
                 self._compare(node)
             if isinstance(node, (ast.Assign, ast.AnnAssign)):
@@ -287,6 +289,62 @@ class AxisChecker:
             if isinstance(node, ast.Call):
                 self._call(node)
         return self.n
+
+    def _branch_axis(self, node):
+        """`if <test about one axis>:` - the arrays touched in the body are
+        sliced / measured / padded along that same axis."""
+        roles = set()
+        for n in walk_local(node.test):
+            if isinstance(n, (ast.Subscript, ast.Name)):
+                r = self.role(n, quiet=True)
+                if r in ("X", "Y", "Z"):
+                    roles.add(r)
+        if len(roles) != 1:
+            return
+        R = roles.pop()
+        for st in node.body:
+            for n in walk_local(st):
+                if isinstance(n, ast.If):
+                    continue
+                if isinstance(n, ast.Subscript) and \
+                        isinstance(n.value, ast.Attribute) and \
+                        n.value.attr == "shape" and \
+                        const_int(n.slice) is not None:
+                    r = self.role(n, quiet=True)
+                    if r in ("X", "Y", "Z"):
+                        self.ob("branch-axis", n, [r], want=[R],
+                                detail="inside `if %s` (axis %s) the extent "
+                                "`%s` of the %s axis is tested"
+                                % (norm(node.test)[:40], R, norm(n), r))
+                if isinstance(n, ast.Subscript):
+                    lay = self.layout(n.value)
+                    sl = n.slice
+                    slots = sl.elts if isinstance(sl, ast.Tuple) else None
+                    if lay and slots and len(slots) == len(lay):
+                        nontrivial = [k for k, s_ in enumerate(slots)
+                                      if not (isinstance(s_, ast.Slice) and
+                                              s_.lower is None and
+                                              s_.upper is None and
+                                              s_.step is None)]
+                        if len(nontrivial) == 1 and lay[nontrivial[0]] != "C":
+                            self.ob("branch-axis", n, [lay[nontrivial[0]]],
+                                    want=[R], detail="inside `if %s` (axis %s) "
+                                    "the array `%s` is sliced along its %s "
+                                    "axis" % (norm(node.test)[:40], R,
+                                              norm(n.value),
+                                              lay[nontrivial[0]]))
+                if isinstance(n, ast.Call) and (call_name(n) or "").endswith(
+                        "np.pad") and len(n.args) >= 2 and \
+                        isinstance(n.args[1], ast.Tuple):
+                    lay = self.layout(n.args[0])
+                    if lay and len(n.args[1].elts) == len(lay):
+                        nz = [k for k, e in enumerate(n.args[1].elts)
+                              if norm(e) not in ("(0, 0)",)]
+                        if len(nz) == 1 and lay[nz[0]] != "C":
+                            self.ob("branch-axis", n, [lay[nz[0]]], want=[R],
+                                    detail="inside `if %s` (axis %s) the "
+                                    "array is padded along its %s axis"
+                                    % (norm(node.test)[:40], R, lay[nz[0]]))
 
     def _walk_expr(self, node):
         # role() reports conflicts of nested arithmetic itself; calls that are
@@ -470,7 +528,9 @@ class AxisChecker:
                      (None, "SLC", "ROW", "COL")]
         else:
             cands = [("X", "X", "Y", "Y", "Z", "Z")]
-        ok = any(all(r is None or c is None or r == c
+        ok = any(all(r is None or (c is None and (len(elts) != 4 or
+                                                  r not in ("X", "Y", "Z")))
+                     or r == c
                      for r, c in zip(roles, cand)) for cand in cands)
         self.n += 1
         self.col.add(self.rule + ".tuple", self.fn, norm(node)[:90], ok,
